@@ -2246,10 +2246,16 @@ namespace awkward {
       }
     }
 
+    // without missing values every entry stays in place: the shifts that an
+    // enclosing list handed in apply to what is below exactly as they are
+    bool keep_shifts = (!isoption()  &&
+                        reducer.returns_positions()  &&
+                        !branchdepth.first  && negaxis == branchdepth.second);
+
     ContentPtr out = next.get()->reduce_next(reducer,
                                              negaxis,
                                              starts,
-                                             nextshifts,
+                                             keep_shifts ? shifts : nextshifts,
                                              nextparents,
                                              outlength,
                                              mask,
@@ -2522,9 +2528,14 @@ namespace awkward {
 
     ContentPtr next = content_.get()->carry(nextcarry, false);
 
+    // without missing values every entry stays in place: the shifts that an
+    // enclosing list handed in apply to what is below exactly as they are
+    bool keep_shifts = (!isoption()  &&
+                        !branchdepth.first  && negaxis == branchdepth.second);
+
     ContentPtr out = next.get()->argsort_next(negaxis,
                                               starts,
-                                              nextshifts,
+                                              keep_shifts ? shifts : nextshifts,
                                               nextparents,
                                               outlength,
                                               ascending,
